@@ -250,6 +250,12 @@ def families(thorough):
     for a in (['Ps', 'Cs', 'Bs', 'S'], ['Ps', 'Ps2', 'Cs2', 'Bs2', 'S']):
         for b in (['Ps', 'Bs', 'E', 'S'], ['Ps2', 'Bs2', 'E', 'S']):
             s.append(Case(a, stop='eof', cache=4, second=b))
+    # a client with more statements than the connection's cache holds: re-using the evicted one makes the pooler prepare it again (and close the
+    # one it evicts) on its own -- whatever it sends for that must be read to its end before the connection serves anybody else
+    for a in (['Ps', 'S', 'Ps2', 'S', 'Bs', 'E', 'S'], ['Ps', 'S', 'Ps2', 'S', 'Ds', 'S']):
+        for b in (['select'], ['P', 'B', 'E', 'S']):
+            for stop in ('X', 'eof'):
+                s.append(Case(a, stop=stop, cache=1, second=b))
     for a in (['hugesel'], ['bigsel'], ['Phuge', 'B', 'E', 'S'], ['copyin_big', 'd', 'c']):
         for stop in ('X', 'eof'):
             s.append(Case(a, stop=stop, second=['select']))
